@@ -203,6 +203,27 @@ def _worker(job):
                             if not C.check_set_profiles(fp, tid, tf, region, mode):
                                 v = C.VIOLATIONS[-1]
                                 res["viol"].append(("FeatureProfiles.set_profiles:wrong-result", v[1], v[2]))
+                # the gene objects built from transcript models (used when reads are assigned to constructed models): whatever matching
+                # tolerance the object carries, an isoform profile marks exactly the features the isoform contains
+                for delta in (0, 2, 6):
+                    models = [gi.TranscriptModel("c", "+", tid, "g", list(t), gi.TranscriptModelType.known) for tid, t in (("a", t1), ("b", t2))]
+                    for ctor, arg in (("from_models", models), ("from_model", models[0])):
+                        g = _call(res, "GeneInfo." + ctor, getattr(gi.GeneInfo, ctor), arg, delta)
+                        if g is None:
+                            continue
+                        for tid, t in (("a", t1), ("b", t2)):
+                            if tid not in g.intron_profiles.profiles:
+                                continue
+                            region = (t[0][0], t[-1][1])
+                            t_introns = C.runs(set(range(t[0][0], t[-1][1] + 1)) - C.U(t))
+                            for fp, tf, mode in ((g.exon_profiles, list(t), "equal"), (g.intron_profiles, t_introns, "equal"),
+                                                 (g.split_exon_profiles, list(t), "contains")):
+                                if mode == "contains" and any(s_ > e_ for s_, e_ in fp.features):
+                                    continue       # malformed split blocks are reported by the split job
+                                res["model_gene_profiles"] = res.get("model_gene_profiles", 0) + 1
+                                if not C.check_set_profiles(fp, tid, tf, region, mode):
+                                    v = C.VIOLATIONS[-1]
+                                    res["viol"].append(("GeneInfo.%s:isoform-profile-wrong" % ctor, v[1] + " delta=%d" % delta, v[2]))
                 if len(t1) >= 2 or len(t2) >= 2:
                     res["nontrivial"] += 1
     elif kind == "readprofiles":
@@ -353,7 +374,7 @@ def run(chk, scratch):
     n_prof = 8 if thorough else 7
     chk.rule = ("exhaustive: all interval pairs over universe %d; all sorted disjoint (touching allowed) interval lists over universe %d "
                 "(x every position) ; all pairs of such lists over universe %d; all sets of <=%d distinct exons over universe %d for split_exons; "
-                "all pairs (known transcript, read) of non-touching exon lists over universe %d for isoform/read profiles (delta 0 and 1); "
+                "all pairs (known transcript, read) of non-touching exon lists over universe %d for isoform/read profiles (delta 0 and 1) and for the isoform profiles of the gene objects built from transcript models (GeneInfo.from_models / from_model, delta 0, 2, 6); "
                 "plus random large instances and the repository's own tests run with the contracts on. "
                 "non-trivial = inputs with >=2 intervals in at least one argument") % (n_single, n_single, n_pair, k_split, n_split, n_prof)
     jobs = [("pairs", n_single)]
@@ -379,6 +400,7 @@ def run(chk, scratch):
         for job, res in zip(jobs, ex.map(_worker, jobs)):
             chk.note(n=res["cases"])
             nontriv += res["nontrivial"]
+            chk.count("model_gene_isoform_profiles_checked", res.get("model_gene_profiles", 0))
             for k, v in res["counts"].items():
                 counts[k] = counts.get(k, 0) + v
             for k, v in res["shapes"].items():
@@ -434,4 +456,5 @@ def run(chk, scratch):
               "split_exons", "sum_intervals_to_point", "FeatureProfiles.set_profiles", "construct_intron_profile",
               "construct_profile"):
         chk.inconclusive_if(counts.get(f, 0) == 0, "contract on %s never evaluated" % f)
+    chk.inconclusive_if(chk.extra.get("model_gene_isoform_profiles_checked", 0) == 0, "no isoform profile of a gene built from transcript models checked")
     chk.min_nontrivial = 1000
